@@ -16,14 +16,20 @@ res() { echo "$P-$DK: $1"; }
 cp $DEMO $WT/$DPATH
 go test -mod=mod -vet=off -count=1 $DPKG >/tmp/seedv.$P$DK.clean.log 2>&1; CLEAN=$?
 # apply patch
-if ! git apply $PATCHF 2>/tmp/seedv.$P$DK.apply.log; then res "PATCH-DOES-NOT-APPLY"; exit 1; fi
+REFRESH=0
+if ! git apply $PATCHF 2>/tmp/seedv.$P$DK.apply.log; then
+  # written against an older HEAD: apply with fuzz and store the refreshed diff
+  patch -p1 -s --no-backup-if-mismatch < $PATCHF >/dev/null 2>&1 || { res "PATCH-DOES-NOT-APPLY"; exit 1; }
+  REFRESH=1
+fi
+git add -A >/dev/null 2>&1; git reset -q -- $DPATH 2>/dev/null; git diff --cached HEAD -- . ":(exclude)$DPATH" > /tmp/seedv.$P$DK.refreshed.diff; git reset -q >/dev/null 2>&1
 go build ./... >/tmp/seedv.$P$DK.build.log 2>&1 || { res "DOES-NOT-BUILD"; exit 1; }
 go test -mod=mod -vet=off -count=1 $DPKG >/tmp/seedv.$P$DK.demo.log 2>&1; WITH=$?
 rm $WT/$DPATH
 go test -mod=mod -vet=off -count=1 ./... >/tmp/seedv.$P$DK.suite.log 2>&1; SUITE=$?
 if [ $CLEAN -eq 0 ] && [ $WITH -ne 0 ] && [ $SUITE -eq 0 ]; then
   D=/verif/seeded/$P-$DK; mkdir -p $D
-  cp $PATCHF $D/patch.diff; cp $DEMO $D/; cp $SRC/demo_path.txt $D/; cp $SRC/notes.md $D/notes.md 2>/dev/null
+  if [ $REFRESH = 1 ]; then cp /tmp/seedv.$P$DK.refreshed.diff $D/patch.diff; else cp $PATCHF $D/patch.diff; fi; cp $DEMO $D/; cp $SRC/demo_path.txt $D/; cp $SRC/notes.md $D/notes.md 2>/dev/null
   res "CONFIRMED (demo clean=pass, demo with patch=fail, suite with patch=pass)"
 else
   res "REJECTED clean=$CLEAN with=$WITH suite=$SUITE"
